@@ -76,7 +76,9 @@ ImplEffs(effs, queue, w, used) ==
 (* ---------- termination modes ---------- *)
 \* kinds: "normal"; "exception" (an Exception subclass reaches _execute's handler); "sysexit";
 \*        "base" (other BaseException); per-mode flag: does building the feedback fail inside pedal?
-Kind(m) == CASE m = "normal" -> "normal"
+\* "closeOut": the program ends normally after CLOSING the stream it prints to (sys.stdout.close()); what it had
+\* printed is gone with the stream, nothing else is different
+Kind(m) == CASE m \in {"normal", "closeOut"} -> "normal"
              [] m \in {"sysexit", "raiseSysExit"} -> "sysexit"
              [] m \in {"baseKbd", "baseGen", "baseCustom", "baseImport"} -> "base"
              [] OTHER -> "exception"
@@ -107,7 +109,7 @@ Exec(prog, kindOfEntry, inq) ==
         brokenNest == "shared_sleep_patcher" \in Flags /\ NCb(prog) > 0
         unmocked == handled /\ ~brokenNest
         \* append_output(share): raw += share; context.output = share; line view
-        share == r.w
+        share == IF prog.mode = "closeOut" THEN <<>> ELSE r.w
         raw1 == IF unmocked THEN raw \o share ELSE raw
         addLines == IF "phantom_line" \in Flags THEN raw1 # <<>> ELSE share # <<>>
         lines1 == IF unmocked /\ addLines THEN lines \o LinesOf(share) ELSE lines
@@ -155,7 +157,8 @@ Honoured(a) == a.op \in {"run_in", "call_in"} /\ ~("falsy_inputs_ignored" \in Fl
 DoExec(prog, a) ==
     LET x == Exec(prog, a.op, IF Honoured(a) THEN a.xs ELSE inputs)
         \* ghost: what the student code really did, starting from the queue the caller asked for
-        g == RunEffs(EffsOf(prog), IF a.op \in {"run_in", "call_in"} THEN a.xs ELSE q, <<>>, <<>>)
+        g0 == RunEffs(EffsOf(prog), IF a.op \in {"run_in", "call_in"} THEN a.xs ELSE q, <<>>, <<>>)
+        g == IF prog.mode = "closeOut" THEN [g0 EXCEPT !.w = <<>>] ELSE g0
     IN /\ pTrace' = x.pTrace /\ pOut' = x.pOut /\ pSleep' = x.pSleep /\ pMods' = x.pMods /\ patches' = x.patches
        /\ stdouts' = x.stdouts /\ raw' = x.raw /\ lines' = x.lines /\ ctxs' = x.ctxs /\ inputs' = x.inputs
        /\ exc' = x.exc /\ fbs' = x.fbs /\ status' = x.status
